@@ -308,3 +308,43 @@ Proof.
   apply NoDup_Permutation; [repeat constructor; cbn; intuition lia|apply seq_NoDup with (start:=0) (len:=7)|].
   intros x. cbn. intuition lia.
 Qed.
+
+(* ---- attributes assigned on an existing Stopper: the last assignment of each attribute is what counts,
+   whatever the instance was constructed with ---- *)
+Fixpoint last_set {A} (f : sop -> option A) (ops : list sop) (d : A) : A :=
+  match ops with
+  | [] => d
+  | o :: r => last_set f r (match f o with Some a => a | None => d end)
+  end.
+Definition get_mi (o : sop) := match o with SetMaxIter n => Some n | _ => None end.
+Definition get_p (o : sop) := match o with SetPatience n => Some n | _ => None end.
+Definition get_at (o : sop) := match o with SetAtol q => Some q | _ => None end.
+Definition get_rt (o : sop) := match o with SetRtol q => Some q | _ => None end.
+
+Theorem apply_ops_fields ops : forall s,
+  apply_ops s ops = mkStopper (last_set get_mi ops (max_iter s)) (last_set get_p ops (patience s))
+                              (last_set get_at ops (atol s)) (last_set get_rt ops (rtol s)).
+Proof.
+  induction ops as [|o r IH]; intros s; cbn [apply_ops fold_left last_set].
+  - destruct s; reflexivity.
+  - fold (apply_ops (apply_op s o) r). rewrite IH. destruct o; reflexivity.
+Qed.
+
+(* the stop rule after any history of assignments is the documented rule of the CURRENT attribute values;
+   in particular a Stopper constructed with rtol = 0 and then given rtol = q uses q *)
+Theorem stop_rule_current s ops i h :
+  let s' := apply_ops s ops in
+  (1 <= patience s')%nat -> (patience s' <= List.length h)%nat -> (i < List.length h)%nat ->
+  stop_now s' i h = Some (rule s' i h)
+  /\ forall q, rtol (apply_ops s (ops ++ [SetRtol q])) = q.
+Proof.
+  cbv zeta. intros H1 H2 H3. split; [apply stop_rule; assumption|].
+  intros q. unfold apply_ops. rewrite fold_left_app. reflexivity.
+Qed.
+
+Example stop_rule_current_example :
+  let s := apply_ops (mkStopper 30 5 (1 # 1000) 0) [SetRtol (1 # 2); SetAtol 0; SetPatience 2; SetMaxIter 8] in
+  s = mkStopper 8 2 0 (1 # 2)
+  /\ stop_now s 3 [8; 6; 4; 3; 0; 0; 0; 0]%Q = Some true
+  /\ stop_now (mkStopper 8 2 0 0) 3 [8; 6; 4; 3; 0; 0; 0; 0]%Q = Some false.
+Proof. cbv zeta. split; [reflexivity|]. split; vm_compute; reflexivity. Qed.
